@@ -389,6 +389,7 @@ theorem scram_step0 (C : Crypto) (cr : Cred) (ch : Bytes) :
 
 /-- what step 1 does once the three checks pass -/
 theorem scram_step1_ok (C : Crypto) (cr : Cred) (s : ScramSt) (ch : Bytes) (hstep : s.step = 1)
+    (hm : gs2Has (parseGS2 ch) 109 = false)
     (hn : cr.cnonce.isPrefixOf (gs2Get (parseGS2 ch) 114) = true)
     (hs : Base64.decodeLenient (gs2Get (parseGS2 ch) 115) ≠ [])
     (hi : 1 ≤ toInt (gs2Get (parseGS2 ch) 105)) :
@@ -404,7 +405,7 @@ theorem scram_step1_ok (C : Crypto) (cr : Cred) (s : ScramSt) (ch : Bytes) (hste
     | nil => exact absurd h hs
     | cons _ _ => rfl
   have hi' : ¬ toInt (gs2Get (parseGS2 ch) 105) < 1 := by omega
-  simp [scramStep, hstep, hn, hs', hi']
+  simp [scramStep, hstep, hm, hn, hs', hi']
 
 theorem scramFinalBare_eq (nonce : Bytes) : scramFinalBare nonce = Ref.clientFinalWithoutProof nonce := by
   simp [scramFinalBare, encode_gs2Header, Ref.clientFinalWithoutProof, sCEq, sCommaREq]
@@ -417,14 +418,15 @@ theorem isPrefixOf_append (a b : Bytes) : a.isPrefixOf (a ++ b) = true := by
 /-- reading an RFC-built server-first message -/
 theorem scram_reads_serverFirst (cnonce snonce salt : Bytes) (i : Nat) (hc : (44 : UInt8) ∉ cnonce)
     (hsn : (44 : UInt8) ∉ snonce) (hi : i ≤ 2147483647) :
-    gs2Get (parseGS2 (Ref.serverFirst cnonce snonce salt i)) 114 = cnonce ++ snonce
+    gs2Has (parseGS2 (Ref.serverFirst cnonce snonce salt i)) 109 = false
+    ∧ gs2Get (parseGS2 (Ref.serverFirst cnonce snonce salt i)) 114 = cnonce ++ snonce
     ∧ Base64.decodeLenient (gs2Get (parseGS2 (Ref.serverFirst cnonce snonce salt i)) 115) = salt
     ∧ toInt (gs2Get (parseGS2 (Ref.serverFirst cnonce snonce salt i)) 105) = (i : Int) := by
   have hp := parseGS2_serverFirst (cnonce ++ snonce) (Base64.encode salt) (Ref.natDec i)
     (by simp [hc, hsn]) (comma_not_mem_encode salt) (comma_not_mem_natDec i)
   unfold Ref.serverFirst
   rw [hp]
-  refine ⟨by simp [gs2Get], ?_, ?_⟩
+  refine ⟨by simp [gs2Has], by simp [gs2Get], ?_, ?_⟩
   · simp [gs2Get, decodeLenient_encode]
   · simp [gs2Get, toInt_natDec i hi]
 
@@ -458,8 +460,8 @@ theorem scram_step1_honest (C : Crypto) (cr : Cred) (salt snonce : Bytes) (i : N
            (C.HMAC (C.H (C.HMAC (C.Hi cr.pass salt i) sClientKey))
              (scramAuthMessage cr (Ref.serverFirst cr.cnonce snonce salt i) (cr.cnonce ++ snonce)))
            (C.HMAC (C.Hi cr.pass salt i) sClientKey)))) := by
-  obtain ⟨hr, hsl, hit⟩ := scram_reads_serverFirst cr.cnonce snonce salt i hc hs hi.2
-  rw [scram_step1_ok C cr (scramSt1 cr) _ rfl (by rw [hr]; exact isPrefixOf_append _ _) (by rw [hsl]; exact hsalt)
+  obtain ⟨hm, hr, hsl, hit⟩ := scram_reads_serverFirst cr.cnonce snonce salt i hc hs hi.2
+  rw [scram_step1_ok C cr (scramSt1 cr) _ rfl hm (by rw [hr]; exact isPrefixOf_append _ _) (by rw [hsl]; exact hsalt)
     (by rw [hit]; omega)]
   simp only [hr, hsl, hit, Int.toNat_natCast, scramAuthMessage, scramSt1, scramSt2]
 
@@ -487,7 +489,7 @@ theorem scram_step2_honest (C : Crypto) (cr : Cred) (s : ScramSt) (hstep : s.ste
   have hp : parseGS2 ([118, 61] ++ Base64.encode s.serverSig) = [(118, Base64.encode s.serverSig)] :=
     parseGS2_serverFinal _ (comma_not_mem_encode _)
   simp only [scramStep, hstep, hp]
-  simp [gs2Get, decodeLenient_encode]
+  simp [gs2Get, gs2Has, decodeLenient_encode]
 
 theorem scram_full_exchange (C : Crypto) (n : Nat) (hM : ∀ k m, (C.HMAC k m).length = n)
     (cr : Cred) (salt snonce : Bytes) (i : Nat)
@@ -743,30 +745,6 @@ theorem parse_serialize (m : DMap)
     simp
 
 /-! ## the managers -/
-
-/-- a SCRAM step that answers advances the step counter by one, never beyond 3, and reaches 3 only verified -/
-theorem scramStep_some (C : Crypto) (cr : Cred) (s : ScramSt) (ch resp : Bytes)
-    (h : (scramStep C cr s ch).2 = some resp) :
-    (scramStep C cr s ch).1.step = s.step + 1 ∧ s.step ≤ 2
-    ∧ ((scramStep C cr s ch).1.step = 3 → (scramStep C cr s ch).1.verified = true) := by
-  by_cases h0 : s.step = 0
-  · simp [scramStep, h0]
-  · by_cases h1 : s.step = 1
-    · unfold scramStep at h ⊢
-      rw [if_neg h0, if_pos h1] at h ⊢
-      dsimp only at h ⊢
-      split at h
-      · simp at h
-      · rename_i hc
-        rw [if_neg hc]
-        simp [h1]
-    · by_cases h2 : s.step = 2
-      · unfold scramStep at h ⊢
-        rw [if_neg h0, if_neg h1, if_pos h2] at h ⊢
-        split at h
-        · rename_i hc; rw [if_pos hc]; simp [h2]
-        · simp at h
-      · simp [scramStep, h0, h1, h2] at h
 
 theorem mgrRun_append (C : Crypto) (md5 : Bytes → Bytes) (cr : Cred) (st : MgrSt) (a b : List El) :
     (mgrRun C md5 cr st (a ++ b)).1 = (mgrRun C md5 cr (mgrRun C md5 cr st a).1 b).1 := by
